@@ -62,7 +62,7 @@ pub fn run(ctx: &Ctx) -> i32 {
                 "tokio paused clock; the deadline counts from Service::call".into(),
                 "when the first poll happens after both the deadline and the inner completion either answer is accepted (tie)".into(),
             ],
-            min_class_fraction: vec![("timed-out", 0.1), ("inner-result", 0.1), ("request-timed-out", 0.1), ("timeout-while-dialing", 0.02), ("timeout-while-holding", 0.01), ("timeout-while-waiting-on-other", 0.005), ("e2e-request-timed-out", 0.005), ("e2e-request-completed", 0.005)],
+            min_class_fraction: vec![("timed-out", 0.1), ("inner-result", 0.07), ("request-timed-out", 0.07), ("timeout-while-dialing", 0.02), ("timeout-while-holding", 0.01), ("timeout-while-waiting-on-other", 0.005), ("e2e-request-timed-out", 0.005), ("e2e-request-completed", 0.005)],
         },
     )
 }
